@@ -343,6 +343,7 @@ class LaplaceTransformer(UnilateralForwardTransformer):
 
             if (expr.is_Mul and len(expr.args) == 2 and
                 isinstance(expr.args[0], sym.DiracDelta) and
+                len(expr.args[0].args) == 1 and
                     isinstance(expr.args[1], (AppliedUndef, sym.Subs))):
                 # Sifting property: delta(a * t + b) * v(t)
                 scale, shift = scale_shift(expr.args[0].args[0], t)
